@@ -458,11 +458,38 @@ def main(x):
     return [top(x), 7]
 """, "main(1)"),
 }
+# noprov0..3: a shallow parent with four children that run with prov=False: their CallNodes and Task values are not
+# recorded beforehand, so record_call_node(top) records the Task values itself (nested commits). In noprov<j> the
+# edit changes child j only (a partially recorded subtree set is stale exactly if it lacks the edited child).
+def _noprov(j):
+    bodies = ["x * 2", "x * 3", "x * 5", "x * 7"]
+    bodies[j] = "{leaf}"
+    kids = "".join(f"""
+@task(name="c{i}", namespace="rvw", prov=False)
+def c{i}(x):
+    return {b}
+""" for i, b in enumerate(bodies))
+    return (kids + """
+@task(name="top", namespace="rvw", check_valid="shallow")
+def top(x):
+    return [c0(x), c1(x), c2(x), c3(x)]
+@task(name="main", namespace="rvw")
+def main(x):
+    return top(x)
+""", "main(1)")
+
+
+NOPROV_WORKLOADS = tuple(f"noprov{j}" for j in range(4))
+for _j, _n in enumerate(NOPROV_WORKLOADS):
+    WORKLOADS[_n] = _noprov(_j)
 # workloads whose jobs the model covers (no failed jobs, no scheduler tasks): traces, C22 sweep
 MODELLED_WORKLOADS = ("chain", "cse", "two_args")
 LEAF_V1 = {"chain": "x + 1", "cse": "x + 1", "two_args": "x + y",
            "caught": "int('bad' + str(x))", "caught_deep": "int('bad' + str(x))"}
 LEAF_V2 = {"chain": "x + 1000", "cse": "x + 1000", "two_args": "x * y", "caught": "x + 100", "caught_deep": "x + 100"}
+for _n in NOPROV_WORKLOADS:
+    LEAF_V1[_n] = "x + 1"
+    LEAF_V2[_n] = "x + 1000"
 
 
 _WL = {"n": 0}
